@@ -564,6 +564,11 @@ func (s *stickyBalanceStrategy) reassignPartition(partition topicPartitionAssign
 	consumer := currentPartitionConsumer[partition]
 	// find the correct partition movement considering the stickiness requirement
 	partitionToBeMoved := s.movements.getTheActualPartitionToBeMoved(partition, consumer, newConsumer)
+	if owner := currentPartitionConsumer[partitionToBeMoved]; owner != consumer {
+		// partition came here from owner earlier, and the partition chosen to move in its place sits on owner,
+		// not on consumer: send partition back to owner too, so that it is consumer that ends up one lighter
+		sortedCurrentSubscriptions = s.processPartitionMovement(partition, owner, currentAssignment, sortedCurrentSubscriptions, currentPartitionConsumer)
+	}
 	return s.processPartitionMovement(partitionToBeMoved, newConsumer, currentAssignment, sortedCurrentSubscriptions, currentPartitionConsumer)
 }
 
